@@ -215,6 +215,9 @@ def translate(repo: Path) -> dict:
     commit_src = ast.unparse(commit)
     commit_cleans = any(isinstance(n, ast.Try) for n in ast.walk(commit)) and \
         ("os.remove(path)" in "".join(ast.unparse(h) for n in ast.walk(commit) if isinstance(n, ast.Try) for h in n.handlers + n.finalbody))
+    addp_src = ast.unparse(addp)
+    commit_checks = "pd.check()" in addp_src and "PackIndexer.for_pack_data" in addp_src and \
+        addp_src.index("pd.check()") < addp_src.index("PackIndexer.for_pack_data")
     mem = T.find_def(stt, "MemoryObjectStore.add_pack")
     mcommit = T.find_def(mem, "commit")
     msrc = ast.unparse(mcommit)
@@ -289,6 +292,8 @@ def rollbackCloseGuarded : Bool := {_lean_bool(close_guarded)}
 /-- `DiskObjectStore.add_pack`: `abort()` removes the temporary file; `commit()` removes it when indexing fails -/
 def abortRemovesTmp : Bool := {_lean_bool(abort_removes)}
 def commitFailureRemovesTmp : Bool := {_lean_bool(commit_cleans)}
+/-- `DiskObjectStore.add_pack().commit` verifies the trailer (`pd.check()`) before indexing -/
+def commitChecksTrailer : Bool := {_lean_bool(commit_checks)}
 /-- `DiskObjectStore.add_thin_pack` removes `tmp_pack_*` when copying / indexing fails -/
 def thinFailureRemovesTmp : Bool := {_lean_bool(thin_cleans)}
 /-- `MemoryObjectStore.add_pack.commit`: `p.check()` precedes the inflater; objects are added while the inflater is drained -/
@@ -1487,6 +1492,8 @@ def _canon_events(events):
     """recorded mutating calls -> the model's FsOp names (chmod/fsync/utime are not modelled)"""
     out = []
     for _who, call, paths, outcome in events:
+        if call in ("remove", "unlink") and outcome == "FileNotFoundError":
+            continue        # cleanup of a file that is already gone (suppressed by the code): no effect
         p = paths[0] if paths else ""
         base = os.path.basename(p)
         is_tmp = base.startswith("tmp_pack_") or (base.startswith("tmp") and base.endswith(".pack"))
@@ -1551,10 +1558,17 @@ def _stream_fs(ctx):
     badtrailer = good[:-1] + bytes([good[-1] ^ 1])
     badzlib = good[:20] + bytes([good[20] ^ 0x40]) + good[21:]
     cut = good[:-7]
+    # a thin pack with one junk byte between its last entry and a CORRECT trailer: accepted by the stream reader, but the
+    # bases `extend_pack` appends land after the junk and the installed pack fails inside zlib
+    jb = build_pack("j", [("ref", ("ext", 0), extb + b"x")], ext=[(3, extb)]).data[:-20] + b"\x35"
+    junk = jb + sha1(jb)
+    gen = (core.LEAN_DIR / "DulwichModel" / "Gen" / "Ingest.lean").read_text()
+    cut_fails_at = "copy" if "def commitChecksTrailer : Bool := true" in gen else "validatezlib"
     scen = [("thin", "never", "thin", good), ("thin", "never", "thin", thin), ("thin", "copy", "thin", badtrailer),
             ("thin", "copy", "thin", badzlib), ("thin", "validate", "thin", badtree),
             ("addpack", "never", "addpack", good), ("addpack", "never", "addpack", thin), ("addpack", "copy", "addpack", badzlib),
-            ("addpack", "validate", "addpack", badtree), ("addpack", "validatezlib", "addpack", cut),
+            ("addpack", "validate", "addpack", badtree), ("addpack", cut_fails_at, "addpack", cut),
+            ("thin", "validatezlib", "thin", junk), ("addpack", "validatezlib", "addpack", junk),
             ("abort", "never", "addpack-abort", good)]
     model = ctx.driver.batch([f"c04.fsprog {a} {b}" for a, b, _, _ in scen])
     for (mpath, fail, path, data), mo in zip(scen, model):
